@@ -467,6 +467,9 @@ func (m *mapGenerator) zapMarshaler(
 	fieldValue string,
 ) (string, error) {
 	name := zapperName(g, root)
+	if zapperDeclared(g, name) {
+		return fmt.Sprintf("(%v)(%v)", name, fieldValue), nil
+	}
 	switch compile.RootTypeSpec(root.KeySpec).(type) {
 	case *compile.StringSpec:
 		return m.zapStringKeyMarshaler(g, name, root, fieldValue)
@@ -508,6 +511,9 @@ func (m *mapGenerator) zapStringKeyMarshaler(
 			Type: root,
 		},
 	)
+	if err == nil {
+		markZapperDeclared(g, name)
+	}
 	return fmt.Sprintf("(%v)(%v)", name, fieldValue), err
 }
 
@@ -553,6 +559,7 @@ func (m *mapGenerator) zapNonstringKeyMarshaler(
 	); err != nil {
 		return "", err
 	}
+	markZapperDeclared(g, name)
 	return fmt.Sprintf("(%v)(%v)", name, fieldValue), nil
 }
 
